@@ -38,7 +38,7 @@ CONFIG = dict(
 )
 
 ENTRY_POINTS = ["parse", "stacked", "decompile", "unparse", "trace", "check_safety", "is_likely_safe",
-                "summaries", "cli_decompile", "cli_trace", "cli_check_safety", "repeat"]
+                "summaries", "cli_decompile", "cli_trace", "cli_check_safety", "repeat", "nonseekable", "cli_stdin"]
 
 CRASH_INPUTS = [
     # test/test_crashes.py
@@ -132,6 +132,11 @@ def inputs(ctx):
                         continue
                     z.writestr(name, body)
         yield f"container-{style}", buf.getvalue(), True
+    # size: inputs of several MiB (one huge constant next to a dangerous global) - buffers that spill to disk, chunked readers
+    for mib in (5, 9):
+        blob = b"B" + (mib << 20).to_bytes(4, "little") + b"\x00" * (mib << 20)
+        yield f"huge-constant-{mib}MiB", b"cos\nsystem\n(" + blob + b"tR.", True
+        yield f"huge-constant-{mib}MiB-benign", b"\x80\x02" + blob + b".", True
     # names that are str.format / %-templates: a report built by formatting text that already contains the
     # pickle's names resolves the replacement fields against live objects (attribute and item look-ups)
     roots = ["0", "trigger", "severity", "self", "node", "shortened", "message", "result", "context", "pickled",
@@ -239,6 +244,42 @@ def make_runner(mods, ctx, data, ep, paths):
         return lambda: cli_run(["fickling", "--trace", inp])
     if ep == "cli_check_safety":
         return lambda: cli_run(["fickling", "--check-safety", "--json-output", rep, "--print-results", inp])
+    if ep in ("nonseekable", "cli_stdin"):
+        class Raw(io.RawIOBase):                     # what a pipe / socket looks like: readable, not seekable
+            def __init__(self, b):
+                self._b = io.BytesIO(b)
+
+            def readable(self):
+                return True
+
+            def seekable(self):
+                return False
+
+            def readinto(self, buf):
+                return self._b.readinto(buf)
+        if ep == "nonseekable":
+            def go():
+                out = []
+                for fn in (lambda: f.Pickled.load(Raw(data)), lambda: f.StackedPickle.load(Raw(data)),
+                           lambda: analysis.check_safety(f.Pickled.load(io.BufferedReader(Raw(data)))).severity):
+                    try:
+                        out.append(fn())
+                    except RecursionError:
+                        out.append("RecursionError")
+                    except Exception as e:
+                        out.append(type(e).__name__)
+                return len(out)
+            return go
+
+        def go_cli():
+            import sys
+            old = sys.stdin
+            sys.stdin = io.TextIOWrapper(io.BufferedReader(Raw(data)), encoding="latin-1")
+            try:
+                return cli_run(["fickling", "-"]), cli_run(["fickling"])
+            finally:
+                sys.stdin = old
+        return go_cli
     if ep == "repeat":
         # the same bytes inspected again and again in one process (each inspection may raise): whatever an earlier,
         # possibly failed, inspection left behind must not make a later one execute anything
@@ -373,7 +414,9 @@ def run_shard(ctx):
             variants.append((label + "~" + cname, cd))
         for vi, (vl, vd) in enumerate(variants):
             for ep in eps:
-                if big and ep in ("trace", "cli_trace", "repeat", "unparse", "stacked"):
+                if big and ep in ("trace", "cli_trace", "repeat", "unparse", "stacked") and len(vd) < (1 << 20):
+                    continue
+                if len(vd) >= (1 << 20) and ep not in ("parse", "nonseekable", "cli_stdin", "check_safety", "is_likely_safe", "cli_decompile"):
                     continue        # tracing copies the memo per opcode (quadratic); the others repeat what decompile / check do
                 k = h(ep.encode() + b"|" + vd)
                 if not ctx.mine(k):
